@@ -193,11 +193,11 @@ func (g *gen) families12() {
 	thorough := g.thorough()
 	readersFor := func(k int) []string {
 		if thorough {
-			return []string{"bytes", "file", "zip-store", "zip-deflate"}
+			return []string{"bytes", "file", "zip-store", "zip-deflate", "proto", "proto-empty"}
 		}
 		// quick: every case through the byte reader, every 5th also through one other reader
 		if k%5 == 0 {
-			return []string{"bytes", []string{"file", "zip-store", "zip-deflate"}[(k/5)%3]}
+			return []string{"bytes", []string{"file", "zip-store", "zip-deflate", "proto-empty", "proto"}[(k/5)%5]}
 		}
 		return []string{"bytes"}
 	}
@@ -206,7 +206,7 @@ func (g *gen) families12() {
 		if len(b.name) > 4 && b.name[len(b.name)-4:] == ".zip" {
 			continue
 		}
-		for _, rd := range []string{"bytes", "file", "zip-store", "zip-deflate"} {
+		for _, rd := range []string{"bytes", "file", "zip-store", "zip-deflate", "proto", "proto-empty"} {
 			g.bytesCase("fault-free-sample", b, nil, nil, rd, "")
 		}
 	}
@@ -399,7 +399,7 @@ func (g *gen) random12(weightOnly []base) {
 	if len(weightOnly) == 0 {
 		return
 	}
-	readers := []string{"bytes", "bytes", "file", "zip-store", "zip-deflate"}
+	readers := []string{"bytes", "bytes", "file", "zip-store", "zip-deflate", "proto-empty", "proto"}
 	for i := int64(g.cfg.W); !g.expired(); i += int64(g.cfg.NW) {
 		r := rng.New(rng.Mix(g.cfg.Seed, 0x1212, uint64(i)))
 		// publish v1 then v2 of a weight file (same type/shape, other values; or another type altogether)
